@@ -1135,7 +1135,7 @@ def corr_pairs(ck, rng, mod, lay):
                     dirty = next(i for i, t in enumerate(trace) if not t[5])
                     mismatches.append((qtext, text, q, m, f'the closures scratch array of the .pyx is not all zero at the top of iteration {dirty} '
                                                           '(stale entries can be read by a later candidate)'))
-                if len(trace) <= 120 and (n_pairs % (4 if ck.tier == 'quick' else 2) == 1 or kind == 'polycycle' and n_pairs % 2):
+                if len(trace) <= 120 and (n_pairs % (4 if ck.tier == 'quick' else 6) == 1 or kind == 'polycycle' and ck.tier == 'quick' and n_pairs % 2):
                     trace_cases.append(f'trace_ok {rq_term(comp, clo)} {rm} {lst(bits, lambda x: b(bool(x)))} ' +
                                        lst([tup(zraw(t[0]), f'{t[1]}%nat', lst(t[2], zraw), lst(t[3], zraw), f'{t[4]}%nat') for t in trace]))
                     trace_meta.append((qtext, text, ci, len(trace)))
